@@ -192,6 +192,7 @@ pub fn run_case(case: &QuantCase, mask: u32, stats: &mut Stats) -> Result<CaseIn
     let mut last_v: f32 = 0.0;
     // for the monotone derived check: previous (input, note) since the last scale edit
     let mut prev_mono: Option<(f32, u8)> = None;
+    let mut mono_armed = false;
     let mut edited_since_convert = false;
     let mut forbidden_last_class = false;
 
@@ -214,6 +215,7 @@ pub fn run_case(case: &QuantCase, mask: u32, stats: &mut Stats) -> Result<CaseIn
                 }
                 edited_since_convert = true;
                 prev_mono = None;
+                mono_armed = false;
             }
             QuantOp::Forbid(_) | QuantOp::ForbidLast(_) => {
                 let mut resolved: Vec<u8> = match op {
@@ -241,6 +243,7 @@ pub fn run_case(case: &QuantCase, mask: u32, stats: &mut Stats) -> Result<CaseIn
                 }
                 edited_since_convert = true;
                 prev_mono = None;
+                mono_armed = false;
             }
             QuantOp::Convert(v) => inputs.push(*v),
             QuantOp::ConvertSame => inputs.push(last_v),
@@ -306,6 +309,7 @@ pub fn run_case(case: &QuantCase, mask: u32, stats: &mut Stats) -> Result<CaseIn
             }
             // ---- window model (C09, and the hysteresis clause of C19)
             let mut kept_by_window = false;
+            let mut decided_history_free = last_note.is_none();
             if let Some(n) = last_note {
                 let allowed = scale >> (n % 12) & 1 == 1;
                 let stair = n as f64 / 12.0;
@@ -356,6 +360,7 @@ pub fn run_case(case: &QuantCase, mask: u32, stats: &mut Stats) -> Result<CaseIn
                         }
                         stats.count("conversions_outside_window", 1);
                         left_window = true;
+                        decided_history_free = true;
                     } else {
                         stats.count("conversions_in_tolerance_strip", 1);
                     }
@@ -430,7 +435,12 @@ pub fn run_case(case: &QuantCase, mask: u32, stats: &mut Stats) -> Result<CaseIn
             }
             last_note = Some(r);
             last_v = v;
-            prev_mono = if v.is_nan() { None } else { Some((v, r)) };
+            // "for a fixed scale": the tracked sequence starts at a conversion that was decided without history under
+            // the current scale (a note kept by the window right after a scale edit still stems from the old scale)
+            if decided_history_free {
+                mono_armed = true;
+            }
+            prev_mono = if v.is_nan() || !mono_armed { None } else { Some((v, r)) };
             edited_since_convert = false;
             forbidden_last_class = false;
         }
